@@ -204,6 +204,7 @@ type result struct {
 func work(j job) (res result) {
 	defer func() {
 		if r := recover(); r != nil {
+			explore.EngineFault(r)
 			res.fs = append(res.fs, explore.ClauseFail{Clause: "no-panic", Sig: fmt.Sprintf("panic:%s:%v", j.kind, r), Msg: fmt.Sprintf("%s on a tree holding %q queried with %q panicked: %v", j.kind, j.stored, j.q, r)})
 		}
 	}()
